@@ -39,6 +39,31 @@ func isProductOf(fa *FA, v ssa.Value, x, y Lin) bool {
 
 // linIsProduct: L is exactly one atom with coefficient 1 that is the product x*y (+k).
 func linProductPlus(fa *FA, L Lin, x, y Lin) (Lin, bool) {
+	// a product that came out of a distributed multiplication carries the canonical name of its two atoms
+	single := func(l Lin) (string, bool) {
+		if len(l.T) != 1 || l.K != 0 {
+			return "", false
+		}
+		for a, c := range l.T {
+			if c == 1 {
+				return a, true
+			}
+		}
+		return "", false
+	}
+	if ax, ok := single(x); ok {
+		if ay, ok := single(y); ok {
+			if ay < ax {
+				ax, ay = ay, ax
+			}
+			name := "(* " + ax + " " + ay + ")"
+			if L.T[name] == 1 {
+				rest := L.clone()
+				delete(rest.T, name)
+				return rest, true
+			}
+		}
+	}
 	for atom, coef := range L.T {
 		if coef == 1 && isProductOf(fa, fa.AtomValue(atom), x, y) {
 			rest := L.clone()
@@ -577,23 +602,36 @@ func runC08(c *Ctx, w *World, r *Report) {
 						continue
 					}
 					d := fa.Lin(o).Sub(L) // prev - clamp
-					bd := fa.BoundsAt(pred, d)
-					fa.boundsIncludingSelf(pred, p.Block(), d, &bd)
-					if bd.HasLo && bd.Lo >= 0 {
-						if isA {
-							clampA = true
+					// the clamping block may be entered on several conditions (`end == -1 || end > count`): every way in
+					// must be one of the two reasons
+					allClamp, allOK, anyDflt, anyClamp := true, true, false, false
+					paths := fa.CondsDNF(pred, 0)
+					for _, cs := range paths {
+						cs2 := append(append([]Cond{}, cs...), selfCond(pred, p.Block())...)
+						bd := fa.boundsFrom(cs2, d)
+						eb := fa.boundsFrom(cs2, fa.Lin(fn.Params[4]))
+						switch {
+						case bd.HasLo && bd.Lo >= 0:
+							anyClamp = true
+						case isA && eb.HasLo && eb.HasHi && eb.Lo == -1 && eb.Hi == -1:
+							anyDflt = true
+							allClamp = false
+						default:
+							allOK, allClamp = false, false
 						}
-						if isB {
-							clampB = true
-						}
-						walk(o, depth+1)
-						return
 					}
-					// default: end == -1 -> words(a)
-					eb := fa.BoundsAt(pred, fa.Lin(fn.Params[4]))
-					fa.boundsIncludingSelf(pred, p.Block(), fa.Lin(fn.Params[4]), &eb)
-					if isA && eb.HasLo && eb.HasHi && eb.Lo == -1 && eb.Hi == -1 {
-						dflt = true
+					if len(paths) > 0 && allOK {
+						if anyClamp || allClamp {
+							if isA {
+								clampA = true
+							}
+							if isB {
+								clampB = true
+							}
+						}
+						if anyDflt {
+							dflt = true
+						}
 						walk(o, depth+1)
 						return
 					}
